@@ -577,21 +577,41 @@ def receiveAppAnswer (s : St) (m : AMsg) : St :=
   | none => s
   | some (_, ai) => appReceiveAnswer s ai m
 
-/-- `_receive_message`. Returns the state; a `crash` output is emitted when an
-    exception escapes (the reader thread dies). -/
-def receiveMessage (s : St) (cid : Nat) (m : AMsg) (info : MsgInfo) : St :=
-  let s := if info.hasOH then
-      { s with originWaiting :=
-          if s.originWaiting.any (·.1 == (m.hbh, m.e2e)) then
-            s.originWaiting.map fun (k, v) => if k == (m.hbh, m.e2e) then (k, m.oh) else (k, v)
-          else s.originWaiting ++ [((m.hbh, m.e2e), m.oh)] }
+/-- First statement of `_receive_message`: remember the origin of the message. -/
+def recordOrigin (s : St) (m : AMsg) (info : MsgInfo) : St :=
+  if info.hasOH then
+    { s with originWaiting :=
+        if s.originWaiting.any (·.1 == (m.hbh, m.e2e)) then
+          s.originWaiting.map fun (k, v) => if k == (m.hbh, m.e2e) then (k, m.oh) else (k, v)
+        else s.originWaiting ++ [((m.hbh, m.e2e), m.oh)] }
+  else s
+
+/-- The `match (is_request, command_code)` of `_receive_message` (inside `try`). -/
+def handleByCommand (s : St) (cid : Nat) (m : AMsg) (info : MsgInfo) : Except Exn St :=
+  -- `_update_peer_counters`: requests received from a known peer
+  let s := if m.isRequest then
+      match (s.conn? cid).bind (findConnectionPeer s) with
+      | some pi => s.modPeer pi fun p => { p with requests := p.requests + 1 }
+      | none => s
     else s
+  if m.cmd == 257 then (if m.isRequest then receiveCer s cid m info else receiveCea s cid m)
+  else if m.cmd == 280 then (if m.isRequest then receiveDwr s cid m info else .ok (receiveDwa s cid))
+  else if m.cmd == 282 then (if m.isRequest then receiveDpr s cid m info else .ok (receiveDpa s cid))
+  else if m.isRequest then receiveAppRequest s cid m info
+  else .ok (receiveAppAnswer s m)
+
+def crashReader (s : St) (cid : Nat) (exc : String) : St :=
+  (s.modConn cid fun c => { c with readerCrashed := true }).emit (.crash s!"reader c{cid}" exc)
+
+/-- `_receive_message`. A `crash` output is emitted when an exception escapes
+    (the reader thread dies). -/
+def receiveMessage (s : St) (cid : Nat) (m : AMsg) (info : MsgInfo) : St :=
+  let s := recordOrigin s m info
   -- pre-`try` section
-  if m.isRequest && info.validateRaises then
-    (s.modConn cid fun c => { c with readerCrashed := true }).emit (.crash s!"reader c{cid}" "ValueError")
+  if m.isRequest && info.validateRaises then crashReader s cid "ValueError"
   else if m.isRequest && !info.missing.isEmpty then
     let (s, ok) := sendMessage s cid (generateAnswer s m info (some 5005) info.missing) info.ansTyped
-    if ok then s else (s.modConn cid fun c => { c with readerCrashed := true }).emit (.crash s!"reader c{cid}" "TypeError")
+    if ok then s else crashReader s cid "TypeError"
   else
     let dup := info.hasOH && m.isRequest && m.isRetransmit &&
       (match s.sentAnswers.find? (·.1 == m.oh) with
@@ -599,28 +619,16 @@ def receiveMessage (s : St) (cid : Nat) (m : AMsg) (info : MsgInfo) : St :=
        | none => false)
     if dup then
       let (s, ok) := sendMessage s cid (generateAnswer s m info (some 5012)) info.ansTyped
-      if ok then s else (s.modConn cid fun c => { c with readerCrashed := true }).emit (.crash s!"reader c{cid}" "TypeError")
+      if ok then s else crashReader s cid "TypeError"
     else
-      -- `_update_peer_counters`: requests received from a known peer
-      let s := if m.isRequest then
-          match (s.conn? cid).bind (findConnectionPeer s) with
-          | some pi => s.modPeer pi fun p => { p with requests := p.requests + 1 }
-          | none => s
-        else s
-      let r : Except Exn St :=
-        if m.cmd == 257 then (if m.isRequest then receiveCer s cid m info else receiveCea s cid m)
-        else if m.cmd == 280 then (if m.isRequest then receiveDwr s cid m info else .ok (receiveDwa s cid))
-        else if m.cmd == 282 then (if m.isRequest then receiveDpr s cid m info else .ok (receiveDpa s cid))
-        else if m.isRequest then receiveAppRequest s cid m info
-        else .ok (receiveAppAnswer s m)
-      match r with
+      match handleByCommand s cid m info with
       | .ok s' => s'
       | .error _ =>
         -- `except Exception`: build a 5012 "answer" (only for requests in the repaired code)
         if Config.answerOnlyRequests && !m.isRequest then s
         else
           let (s, ok) := sendMessage s cid (generateAnswer s m info (some 5012)) info.ansTyped
-          if ok then s else (s.modConn cid fun c => { c with readerCrashed := true }).emit (.crash s!"reader c{cid}" "TypeError")
+          if ok then s else crashReader s cid "TypeError"
 
 /-- `PeerConnection.__dispatch_message`: the capabilities-exchange gate.
     `Config.gateClosing`: the gate also drops everything on a CLOSING connection. -/
